@@ -96,9 +96,20 @@ def inlinable(doc, name, children):
 
 def apply(doc, max_rounds=3):
     """returns (new bodies dict, list of (caller, callee) pairs that were inlined)"""
-    children = set(b.get('parent') for b in doc['bodies'].values() if b.get('parent'))
     bodies = dict(doc['bodies'])
     done = []
+    for _outer in range(2):
+        n0 = len(done)
+        _apply_helpers(doc, bodies, done, max_rounds)
+        n1 = len(done)
+        inline_closure_calls(doc, bodies, done)
+        if len(done) == n1:          # no closure body was pulled in: nothing new for the helper pass to look at
+            break
+    return bodies, done
+
+
+def _apply_helpers(doc, bodies, done, max_rounds=3):
+    children = set(b.get('parent') for b in doc['bodies'].values() if b.get('parent'))
     for _ in range(max_rounds):
         changed = False
         for bname in list(bodies):
@@ -136,6 +147,8 @@ def apply(doc, max_rounds=3):
                     t2 = blk2['term']
                     if t2 and t2['k'] == 'return':
                         blk2['term'] = {'k': 'goto', 'target': cont, 'span': t2['span']}
+                    elif t2 and t2['k'] == 'call' and '_from' not in t2:
+                        t2['_from'] = c            # this call was written in the helper `c` (used by inline_closure_calls)
                     nb['blocks'].append(blk2)
                 nb['blocks'].append({'cleanup': False,
                                      'stmts': [{'k': 'assign', 'place': t['dest'], 'rv': {'k': 'use', 'op': {'c': 'move', 'place': {'l': lo, 'p': []}}}, 'span': t['span']}],
@@ -146,4 +159,129 @@ def apply(doc, max_rounds=3):
             changed = True
         if not changed:
             break
-    return bodies, done
+
+
+# ---------------------------------------------------------------------------------------------------------------
+# closures handed to a private higher-order helper: `helper(.., |x| BODY)` where the helper (now inlined) does `f(x)` per element
+CLOSURE_CALLS = ('std::ops::FnMut::call_mut', 'std::ops::Fn::call', 'std::ops::FnOnce::call_once')
+
+
+def _whole_defs(b, l):
+    out = []
+    for blk in b['blocks']:
+        for st in blk['stmts']:
+            if st['k'] == 'assign' and st['place']['l'] == l and not st['place']['p']:
+                out.append(st)
+        t = blk['term']
+        if t and t.get('k') == 'call' and t.get('dest') and t['dest']['l'] == l and not t['dest']['p']:
+            out.append(None)
+    return out
+
+
+def _trace_closure(b, l):
+    """the closure aggregate a local (a reference to / a moved copy of a closure value) comes from, inside body b"""
+    for _ in range(8):
+        ds = _whole_defs(b, l)
+        if len(ds) != 1 or ds[0] is None:
+            return None
+        rv = ds[0]['rv']
+        if rv['k'] == 'aggr' and rv.get('closure'):
+            return rv
+        if rv['k'] == 'ref' and not rv['place']['p']:
+            l = rv['place']['l']
+        elif rv['k'] == 'use' and isinstance(rv.get('op'), dict) and 'place' in rv['op'] and not rv['op']['place']['p']:
+            l = rv['op']['place']['l']
+        else:
+            return None
+    return None
+
+
+def _all_places(x, out):
+    if isinstance(x, dict):
+        if 'l' in x and 'p' in x and isinstance(x['p'], list):
+            out.append(x)
+            return
+        for k, v in x.items():
+            if k != 'promoted':
+                _all_places(v, out)
+    elif isinstance(x, list):
+        for v in x:
+            _all_places(v, out)
+
+
+def inline_closure_calls(doc, bodies, done, max_rounds=2):
+    """A call `f(args)` that was written INSIDE an inlined private helper, on a parameter `f` which the caller bound to a closure literal,
+    is replaced by the closure's body (captured variables become the caller's locals they were captured from; the arguments are the
+    members of the argument tuple). `visit_bottom_up(layers, |id| BODY)` thereby reads like the loop it replaced. Calls written in
+    the function itself (the `foreach!` macro) are left alone."""
+    for _ in range(max_rounds):
+        changed = False
+        for bname in list(bodies):
+            b = bodies[bname]
+            sites = []
+            for bi, blk in enumerate(b['blocks']):
+                t = blk['term']
+                if not (t and t['k'] == 'call' and t.get('callee') in CLOSURE_CALLS and t.get('_from') and t.get('target') is not None and not blk['cleanup']):
+                    continue
+                if len(t['args']) != 2 or not all(isinstance(a, dict) and 'place' in a and not a['place']['p'] for a in t['args']):
+                    continue
+                agg = _trace_closure(b, t['args'][0]['place']['l'])
+                if agg is None or agg['closure'] not in doc['bodies'] or agg['closure'] == bname:
+                    continue
+                h = doc['bodies'][agg['closure']]
+                if len(h['blocks']) > MAX_BLOCKS or not all(isinstance(o, dict) and 'place' in o and not o['place']['p'] for o in agg['ops']):
+                    continue
+                byref = (h['locals'][1].get('ty') or '').startswith('&')
+                k0 = 1 if byref else 0
+                pls = []
+                _all_places(h['blocks'], pls)
+                ok = True
+                for pl in pls:
+                    if any(isinstance(e, dict) and e.get('idx') == 1 for e in pl['p']):
+                        ok = False
+                    if pl['l'] == 1:
+                        if len(pl['p']) <= k0 or (byref and pl['p'][0] != 'deref') or not (isinstance(pl['p'][k0], dict) and 'f' in pl['p'][k0] and pl['p'][k0]['f'] < len(agg['ops'])):
+                            ok = False
+                if ok:
+                    sites.append((bi, agg, h, byref))
+            if not sites:
+                continue
+            nb = copy.deepcopy(b) if b is doc['bodies'].get(bname) else b
+            for (bi, agg, h, byref) in sites:
+                lo, bo, po = len(nb['locals']), len(nb['blocks']), len(nb.get('promoted', []))
+                t = nb['blocks'][bi]['term']
+                nb['locals'].extend(copy.deepcopy(h['locals']))
+                for d in h.get('debug', []):
+                    v = d['v']
+                    if isinstance(v, dict) and 'l' in v and v['l'] != 1:
+                        nb['debug'].append({'name': d['name'], 'v': _remap(v, lo, 0, po)})
+                nb.setdefault('promoted', []).extend(copy.deepcopy(h.get('promoted', [])))
+                A = t['args'][1]['place']['l']
+                for j in range(h['arg_count'] - 1):
+                    nb['blocks'][bi]['stmts'].append({'k': 'assign', 'place': {'l': lo + 2 + j, 'p': []},
+                                                      'rv': {'k': 'use', 'op': {'c': 'move', 'place': {'l': A, 'p': [{'f': j, 'name': str(j), 'adt': None}]}}}, 'span': t['span']})
+                cont = bo + len(h['blocks'])
+                k0 = 1 if byref else 0
+                for hb in h['blocks']:
+                    blk2 = _remap(hb, lo, bo, po)
+                    pls2 = []
+                    _all_places(blk2, pls2)
+                    for pl in pls2:
+                        if pl['l'] == lo + 1:
+                            cap = agg['ops'][pl['p'][k0]['f']]['place']['l']
+                            pl['p'] = pl['p'][k0 + 1:]
+                            pl['l'] = cap
+                    t2 = blk2['term']
+                    if t2 and t2['k'] == 'return':
+                        blk2['term'] = {'k': 'goto', 'target': cont, 'span': t2['span']}
+                    nb['blocks'].append(blk2)
+                nb['blocks'].append({'cleanup': False,
+                                     'stmts': [{'k': 'assign', 'place': t['dest'], 'rv': {'k': 'use', 'op': {'c': 'move', 'place': {'l': lo, 'p': []}}}, 'span': t['span']}],
+                                     'term': {'k': 'goto', 'target': t['target'], 'span': t['span']}})
+                nb['blocks'][bi]['term'] = {'k': 'goto', 'target': bo, 'span': t['span']}
+                done.append((bname, agg['closure']))
+            bodies[bname] = nb
+            changed = True
+        if not changed:
+            break
+    return set(c for (a, c) in done if '{closure' in c)
